@@ -19,7 +19,7 @@ func profSubs() *Profile {
 
 func subCheck(t *testing.T, id, rule string, floor int, req func(run *ev.Run)) {
 	run := ev.Start(id)
-	nHist, nOps := run.Pick(10, 150), run.Pick(500, 1500)
+	nHist, nOps := run.Pick(10, 100), run.Pick(500, 1500)
 	for h := 0; h < nHist; h++ {
 		var sm *SubMon
 		prof := profSubs()
